@@ -26,6 +26,13 @@ Next ==
                             ELSE IF e.exc # "" THEN "ReadRaised"
                             ELSE ReadVerdict(rows, n, e.r0, e.r1, e.c0, e.c1, e.got))
                /\ UNCHANGED <<rows, conf>>
+          [] e.k = "rowread" ->
+               /\ v' = Fail(IF e.rows # rows THEN "ReadChangedTheArray" ELSE IF e.exc # "" THEN "ReadRaised"
+                            ELSE RowReadVerdict(rows, n, e.r, e.got))
+               /\ UNCHANGED <<rows, conf>>
+          [] e.k = "make" ->
+               /\ v' = Fail(MakeVerdict(Blk(e.strings), e.width, e.exc # "", e.rows, e.ncols))
+               /\ rows' = rows /\ conf' = conf
           [] OTHER -> /\ v' = Fail("UnknownEvent") /\ UNCHANGED <<rows, conf>>
 Spec == Init /\ [][Next]_vars
 Report == (l <= Len(Traces[i].ev) \/ (v[1] = "ok" /\ conf = "exact")) \/ PrintT(<<"V", i>> \o v \o <<conf>>)
